@@ -39,9 +39,11 @@ func (a labelSet) sorted() []string {
 
 // TSite is a sink occurrence.
 type TSite struct {
-	Pos  token.Pos
-	Fn   *ssa.Function
-	What string
+	Pos   token.Pos
+	Fn    *ssa.Function
+	What  string
+	Instr ssa.Instruction // the sink instruction itself (nil for sinks inherited from a callee)
+	Local bool            // the sink is in Fn itself (not inherited through a call)
 }
 
 // TSummary of one function.
@@ -92,6 +94,7 @@ type TaintEngine struct {
 	TrackPools bool
 	Sum        map[*ssa.Function]*TSummary
 	UsedModels map[string]int
+	callSites  map[*ssa.Function][]ssa.CallInstruction
 }
 
 func NewTaintEngine(p *Prog) *TaintEngine {
@@ -179,8 +182,16 @@ func isTrackedType(t types.Type) bool {
 
 // Run computes summaries of all module functions to a fixpoint.
 func (t *TaintEngine) Run() {
+	t.callSites = map[*ssa.Function][]ssa.CallInstruction{}
 	for _, fn := range t.P.Funcs {
 		t.Sum[fn] = newTSummary()
+		allInstrs(fn, func(in ssa.Instruction) {
+			if ci, ok := in.(ssa.CallInstruction); ok {
+				if cal := staticCallee(ci); cal != nil && t.P.funcSet[cal] {
+					t.callSites[cal] = append(t.callSites[cal], ci)
+				}
+			}
+		})
 	}
 	for round := 0; round < 12; round++ {
 		changed := false
@@ -200,7 +211,8 @@ func (t *TaintEngine) Run() {
 type fnState struct {
 	t      *TaintEngine
 	fn     *ssa.Function
-	alias  map[ssa.Value]labelSet
+	alias  map[ssa.Value]labelSet // memory the value's own backing store may share
+	holds  map[ssa.Value]labelSet // memory the ELEMENTS of a container of references may refer to
 	capped map[ssa.Value]bool
 	sum    *TSummary
 	seenW  map[string]bool
@@ -214,6 +226,49 @@ func (s *fnState) get(v ssa.Value) labelSet {
 		return ls
 	}
 	return nil
+}
+
+func (s *fnState) getHolds(v ssa.Value) labelSet {
+	if v == nil {
+		return nil
+	}
+	return s.holds[v]
+}
+
+func (s *fnState) addHolds(v ssa.Value, ls labelSet) bool {
+	if len(ls) == 0 {
+		return false
+	}
+	cur := s.holds[v]
+	if cur == nil {
+		cur = labelSet{}
+		s.holds[v] = cur
+	}
+	return cur.addAll(ls)
+}
+
+// both: own memory and held references (what a callee can reach through the value).
+func (s *fnState) both(v ssa.Value) labelSet {
+	out := labelSet{}
+	out.addAll(s.get(v))
+	out.addAll(s.getHolds(v))
+	return out
+}
+
+func isRefElemContainer(t types.Type) bool {
+	switch u := t.Underlying().(type) {
+	case *types.Slice:
+		return isTrackedType(u.Elem()) || isRefKind(u.Elem())
+	case *types.Array:
+		return isTrackedType(u.Elem()) || isRefKind(u.Elem())
+	case *types.Pointer:
+		if a, ok := u.Elem().Underlying().(*types.Array); ok {
+			return isTrackedType(a.Elem()) || isRefKind(a.Elem())
+		}
+	case *types.Map:
+		return isTrackedType(u.Elem()) || isRefKind(u.Elem())
+	}
+	return false
 }
 
 func (s *fnState) add(v ssa.Value, ls labelSet) bool {
@@ -235,7 +290,7 @@ func (s *fnState) sink(kind string, ls labelSet, in ssa.Instruction, what string
 			continue
 		}
 		s.seenW[key] = true
-		site := TSite{Pos: instrPos(in), Fn: s.fn, What: what}
+		site := TSite{Pos: instrPos(in), Fn: s.fn, What: what, Instr: in, Local: !strings.HasPrefix(what, "via ")}
 		if kind == "w" {
 			s.sum.Writes[l] = append(s.sum.Writes[l], site)
 		} else {
@@ -245,10 +300,13 @@ func (s *fnState) sink(kind string, ls labelSet, in ssa.Instruction, what string
 }
 
 func (t *TaintEngine) summarise(fn *ssa.Function) *TSummary {
-	s := &fnState{t: t, fn: fn, alias: map[ssa.Value]labelSet{}, capped: map[ssa.Value]bool{}, sum: newTSummary(), seenW: map[string]bool{}}
+	s := &fnState{t: t, fn: fn, alias: map[ssa.Value]labelSet{}, holds: map[ssa.Value]labelSet{}, capped: map[ssa.Value]bool{}, sum: newTSummary(), seenW: map[string]bool{}}
 	for i, pa := range fn.Params {
 		if isTrackedType(pa.Type()) || isRefKind(pa.Type()) {
 			s.alias[pa] = labelSet{fmt.Sprintf("p%d", i): true}
+			if isRefElemContainer(pa.Type()) {
+				s.holds[pa] = labelSet{fmt.Sprintf("p%d", i): true}
+			}
 		}
 	}
 	for i, fv := range fn.FreeVars {
@@ -299,8 +357,8 @@ func (s *fnState) applySummary(in ssa.Instruction, callee *ssa.Function, args []
 	}
 	changed := false
 	argAlias := func(i int) labelSet {
-		if i < len(args) {
-			return s.get(args[i])
+		if i < len(args) && args[i] != nil {
+			return s.both(args[i])
 		}
 		return nil
 	}
@@ -308,7 +366,7 @@ func (s *fnState) applySummary(in ssa.Instruction, callee *ssa.Function, args []
 	if bindings != nil {
 		fvAlias = func(i int) labelSet {
 			if i < len(bindings) {
-				return s.get(bindings[i])
+				return s.both(bindings[i])
 			}
 			return nil
 		}
@@ -371,6 +429,9 @@ func (s *fnState) step(in ssa.Instruction) bool {
 	switch x := in.(type) {
 	case *ssa.Slice:
 		ch := s.add(x, s.get(x.X))
+		if s.addHolds(x, s.getHolds(x.X)) {
+			ch = true
+		}
 		if x.Max != nil && x.High != nil && sameIntValue(x.Max, x.High) {
 			s.capped[x] = true
 		}
@@ -381,10 +442,17 @@ func (s *fnState) step(in ssa.Instruction) bool {
 			if s.add(x, s.get(e)) {
 				ch = true
 			}
+			if s.addHolds(x, s.getHolds(e)) {
+				ch = true
+			}
 		}
 		return ch
 	case *ssa.ChangeType:
-		return s.add(x, s.get(x.X))
+		ch := s.add(x, s.get(x.X))
+		if s.addHolds(x, s.getHolds(x.X)) {
+			ch = true
+		}
+		return ch
 	case *ssa.ChangeInterface:
 		return s.add(x, s.get(x.X))
 	case *ssa.MakeInterface:
@@ -403,10 +471,14 @@ func (s *fnState) step(in ssa.Instruction) bool {
 	case *ssa.SliceToArrayPointer:
 		return s.add(x, s.get(x.X))
 	case *ssa.IndexAddr:
-		return s.add(x, s.get(x.X))
+		ch := s.add(x, s.get(x.X))
+		if s.addHolds(x, s.getHolds(x.X)) {
+			ch = true
+		}
+		return ch
 	case *ssa.Lookup:
-		if isTrackedType(x.Type()) {
-			return s.add(x, s.get(x.X))
+		if isTrackedType(x.Type()) || isRefKind(x.Type()) {
+			return s.add(x, s.getHolds(x.X))
 		}
 	case *ssa.Extract:
 		// handled at the call; selects/others: nothing
@@ -435,28 +507,60 @@ func (s *fnState) step(in ssa.Instruction) bool {
 		case *ssa.Global:
 			return s.add(x, labelSet{"global:" + a.Pkg.Pkg.Path() + "." + a.Name(): true})
 		case *ssa.IndexAddr:
-			// element of a slice of slices: aliases what the container aliases
-			if _, isByteElem := a.Type().Underlying().(*types.Pointer); isByteElem {
-				return s.add(x, s.get(a))
+			// element of a container of references: refers to what the container holds
+			ch := s.add(x, s.getHolds(a.X))
+			if isRefElemContainer(x.Type()) && s.addHolds(x, s.getHolds(a.X)) {
+				ch = true
 			}
+			return ch
 		default:
 			// Alloc cell, FieldAddr (field label), FreeVar (fv label), pointer param
-			return s.add(x, s.get(x.X))
+			if cell, ok := x.X.(*ssa.Alloc); ok {
+				if st := lastStoreInBlock(cell, x); st != nil {
+					// flow-sensitive within the block: the value stored last is what is loaded
+					ch := s.add(x, s.get(st.Val))
+					if s.addHolds(x, s.getHolds(st.Val)) {
+						ch = true
+					}
+					return ch
+				}
+			}
+			ch := s.add(x, s.get(x.X))
+			if s.addHolds(x, s.getHolds(x.X)) {
+				ch = true
+			}
+			return ch
 		}
 	case *ssa.Store:
 		ch := false
 		va := s.get(x.Val)
+		if _, toIdx := x.Addr.(*ssa.IndexAddr); !toIdx {
+			if hv := s.getHolds(x.Val); len(hv) > 0 {
+				// containers keep their held references when stored into cells/fields
+				if s.addHolds(x.Addr, hv) {
+					ch = true
+				}
+				va = s.both(x.Val)
+			}
+		}
 		switch a := x.Addr.(type) {
 		case *ssa.IndexAddr:
 			// write into the memory a points into
 			if ls := s.get(a.X); len(ls) > 0 {
 				s.sink("w", ls, in, "element store")
 			}
-			// storing a tracked value into a container element: container aliases it
+			// storing a reference into a container element: the container now holds it
 			if len(va) > 0 {
-				if s.add(a.X, va) {
+				if s.addHolds(a.X, va) {
 					ch = true
 				}
+				// the container's other views hold it too (backing array alloc for varargs)
+				if sl, ok := a.X.(*ssa.Slice); ok && s.addHolds(sl.X, va) {
+					ch = true
+				}
+			}
+			if hv := s.getHolds(x.Val); len(hv) > 0 && s.addHolds(a.X, hv) {
+				ch = true
 			}
 		case *ssa.FieldAddr:
 			id := fieldIDOfAddr(a)
@@ -494,19 +598,25 @@ func (s *fnState) step(in ssa.Instruction) bool {
 		}
 		return ch
 	case *ssa.Send:
-		if ls := s.get(x.X); len(ls) > 0 {
+		if ls := s.both(x.X); len(ls) > 0 {
 			s.sink("e", ls, in, "sent on a channel")
 		}
 	case *ssa.MapUpdate:
+		if ls := s.get(x.Map); len(ls) > 0 {
+			s.sink("w", ls, in, "map update")
+		}
 		if ls := s.get(x.Value); len(ls) > 0 {
-			if s.add(x.Map, ls) {
+			if s.addHolds(x.Map, ls) {
 				return true
 			}
 		}
 	case *ssa.Return:
 		ch := false
+		if x.Block() == s.fn.Recover && !mayRecover(s.fn) {
+			return false // the recover block only runs after a deferred call recovered a panic
+		}
 		for j, res := range x.Results {
-			if ls := s.get(res); len(ls) > 0 {
+			if ls := s.both(s.reachingValue(res, x)); len(ls) > 0 {
 				cur := s.sum.Ret[j]
 				if cur == nil {
 					cur = labelSet{}
@@ -581,7 +691,10 @@ func (s *fnState) call(ci ssa.CallInstruction) bool {
 				if _, isSliceOfRef := result.Type().Underlying().(*types.Slice); isSliceOfRef {
 					el := result.Type().Underlying().(*types.Slice).Elem()
 					if isTrackedType(el) || isRefKind(el) {
-						if s.add(result, s.get(cc.Args[1])) {
+						if s.addHolds(result, s.getHolds(cc.Args[1])) {
+							ch = true
+						}
+						if s.addHolds(result, s.getHolds(base)) {
 							ch = true
 						}
 					}
@@ -606,6 +719,23 @@ func (s *fnState) call(ci ssa.CallInstruction) bool {
 			bindings = mc.Bindings
 		}
 		return s.applySummary(in, cal, cc.Args, bindings, result)
+	}
+	// call through a function-typed parameter: resolve through the call sites of this function
+	if pa, ok := cc.Value.(*ssa.Parameter); ok && !cc.IsInvoke() {
+		if targets, shift, ok := s.t.paramFuncTargets(s.fn, pa); ok {
+			ch := false
+			for i, tg := range targets {
+				args := cc.Args
+				if shift[i] {
+					// bound method: receiver is the closure's binding, unknown here
+					args = append([]ssa.Value{nil}, cc.Args...)
+				}
+				if s.applySummary(in, tg, args, nil, result) {
+					ch = true
+				}
+			}
+			return ch
+		}
 	}
 	// sync.Pool.Get
 	if s.t.TrackPools && callIs(ci, "sync", "Pool", "Get") && result != nil {
@@ -754,4 +884,118 @@ func sameIntValue(a, b ssa.Value) bool {
 
 func isErrorType(t types.Type) bool {
 	return types.Identical(t, types.Universe.Lookup("error").Type())
+}
+
+// paramFuncTargets resolves the functions that may be bound to the
+// function-typed parameter pa of fn, by looking at every in-module call site
+// of fn. ok=false if fn's address is taken, it has no call site, or some
+// argument is not a function literal / method value.
+func (t *TaintEngine) paramFuncTargets(fn *ssa.Function, pa *ssa.Parameter) (targets []*ssa.Function, bound []bool, ok bool) {
+	idx := -1
+	for i, p := range fn.Params {
+		if p == pa {
+			idx = i
+		}
+	}
+	sites := t.callSites[origin(fn)]
+	if idx < 0 || len(sites) == 0 || isExportedFunc(fn) {
+		return nil, nil, false
+	}
+	for _, cs := range sites {
+		args := cs.Common().Args
+		if idx >= len(args) {
+			return nil, nil, false
+		}
+		switch v := args[idx].(type) {
+		case *ssa.Function:
+			targets, bound = append(targets, origin(v)), append(bound, false)
+		case *ssa.MakeClosure:
+			f, _ := v.Fn.(*ssa.Function)
+			if f == nil {
+				return nil, nil, false
+			}
+			if t.P.funcSet[origin(f)] {
+				targets, bound = append(targets, origin(f)), append(bound, false)
+			} else if strings.Contains(f.Synthetic, "bound method") && f.Object() != nil {
+				m := t.P.SSA.FuncValue(f.Object().(*types.Func))
+				if m == nil || !t.P.funcSet[origin(m)] {
+					return nil, nil, false
+				}
+				targets, bound = append(targets, origin(m)), append(bound, true)
+			} else {
+				return nil, nil, false
+			}
+		default:
+			return nil, nil, false
+		}
+	}
+	return targets, bound, true
+}
+
+// lastStoreInBlock: the last store to cell that precedes load in the same
+// block, provided the cell is not captured by a closure (no call between can
+// then change it). nil if none.
+func lastStoreInBlock(cell *ssa.Alloc, load ssa.Instruction) *ssa.Store {
+	for _, r := range refs(cell) {
+		if _, ok := r.(*ssa.MakeClosure); ok {
+			return nil
+		}
+	}
+	var last *ssa.Store
+	for _, in := range load.Block().Instrs {
+		if in == load {
+			break
+		}
+		if st, ok := in.(*ssa.Store); ok && st.Addr == ssa.Value(cell) {
+			last = st
+		}
+	}
+	return last
+}
+
+// reachingValue: for a returned value that is a reload of a spilled result
+// slot, the value stored into the slot in the returning block (if any).
+func (s *fnState) reachingValue(v ssa.Value, at ssa.Instruction) ssa.Value {
+	u, ok := v.(*ssa.UnOp)
+	if !ok || u.Op != token.MUL {
+		return v
+	}
+	cell, ok := u.X.(*ssa.Alloc)
+	if !ok {
+		return v
+	}
+	if st := lastStoreInBlock(cell, u); st != nil {
+		return st.Val
+	}
+	return v
+}
+
+// mayRecover: some deferred call of fn may call recover() (directly in a
+// deferred module function, or the deferred callee is unknown).
+func mayRecover(fn *ssa.Function) bool {
+	res := false
+	allInstrs(fn, func(in ssa.Instruction) {
+		d, ok := in.(*ssa.Defer)
+		if !ok {
+			return
+		}
+		cal := staticCallee(d)
+		if cal == nil {
+			if d.Call.IsInvoke() || builtinName(d) == "" {
+				// unknown function value / interface method: library Close/Unlock/cancel do not recover
+				if _, isFn := d.Call.Value.(*ssa.Function); !isFn && !d.Call.IsInvoke() {
+					if _, isParamOrLoad := d.Call.Value.(*ssa.MakeClosure); isParamOrLoad {
+						res = true
+					}
+				}
+			}
+			return
+		}
+		allInstrs(cal, func(j ssa.Instruction) {
+			if c, ok := j.(ssa.CallInstruction); ok && builtinName(c) == "recover" {
+				res = true
+			}
+		})
+	})
+	return res
 }
